@@ -157,29 +157,44 @@ def tables(cfg, crate, rep):
         if o["rule"] == "C07.back" and "try_from_general" in o["key"]:
             o["rule"] = "C17.tables"
             o["key"] = o["key"].replace("C07.back", "C17.tables")
-    # general subtrees
+    # general subtrees: what is appended for one parsed subtree, specialised per GeneralName variant / octet length
+    # (from the interpreter's log of pushes onto the result: arms in the loop, or a per-element helper returning Option)
+    from interp import specialise
+    import re as _re
     fn = P + "convert_x509_general_subtrees"
     rep.fn(fn)
-    b = crate.body(fn)
-    ms = arms_of(b, lambda n: any("GeneralName::" in patsum(a["pat"]) or "GeneralName" in str(a["pat"].get("def")) for a in n["arms"]))
-    got = []
-    if ms:
-        for a in ms[0]["arms"]:
-            ps = patsum(a["pat"])
-            guard = None
-            if a.get("guard"):
-                lits = [x.get("v") for x in common.hir_walk(a["guard"]) if x["k"] == "Lit"]
-                ln = any((x.get("callee") or "").endswith("len") for x in common.hir_walk(a["guard"]))
-                eq = [x for x in common.hir_walk(a["guard"]) if x["k"] == "Binary"]
-                guard = (lits[0] if lits and ln and eq and eq[0]["op"] == "==" else "?")
-            outs = ctors_in(a["body"], "certificate::")
-            splits = sorted({x.get("v") for x in common.hir_walk(a["body"]) if x["k"] == "Lit" and x.get("lk") == "int"})
-            got.append((ps.split("(")[0], guard, outs, splits))
-    want = [("RFC822Name", None, ["Rfc822Name"], []), ("DNSName", None, ["DnsName"], []), ("DirectoryName", None, ["DirectoryName"], []),
-            ("IPAddress", 8, ["IpAddress", "V4"], [4]), ("IPAddress", 32, ["IpAddress", "V6"], [16]), ("_", None, [], [])]
-    norm = [(a, g, sorted(o), s) for a, g, o, s in got]
-    wantn = [(a, g, sorted(o), s) for a, g, o, s in want]
-    rep.ob("C17.tables", "%s|%s" % (cfg, fn), norm == wantn, "GeneralName -> GeneralSubtree arms invert the writer's table; subnets are split addr||mask at 4 / 16 under a dominating length test 8 / 32", expected=wantn, found=norm)
+    Ig = Interp(crate)
+    Ig.run_fn(fn)
+    pushes = [(cond, payload[0]) for tgt, kind, payload, n_, f_, cond in Ig.muts if kind.endswith("Vec::push") and f_ == fn and payload]
+    got = {}
+    if len(pushes) == 1:
+        cond, val = pushes[0]
+        from interp import split_guards
+        ats = list(F.atoms(cond))
+        for g in split_guards(val):
+            for a in F.atoms(g):
+                if a not in ats:
+                    ats.append(a)
+        base = [a for a in ats if a[0] == "variant" and a[1].endswith(".base")]
+        lens = [a for a in ats if a[0] == "eq" and "len(" in str(a[1]) and str(a[2]) in ("8", "32")]
+        place = base[0][1] if base else None
+        cases = [(v_, None) for v_ in ("RFC822Name", "DNSName", "DirectoryName", "URI", "OtherName")] + [("IPAddress", 8), ("IPAddress", 32), ("IPAddress", 5)]
+        for gname, ln in cases:
+            asg = {a: (a[2] == gname) for a in base}
+            asg[("variant", place, gname)] = True
+            for a in lens:
+                asg[a] = (ln is not None and str(a[2]) == str(ln))
+            pushed = S.pe_formula(cond, asg)
+            if pushed is False:
+                got["%s%s" % (gname, "/%d" % ln if ln else "")] = None
+                continue
+            x = specialise(val, asg)
+            txt = core(x).r()
+            splits = sorted({int(m_) for m_ in _re.findall(r"Range(?:To|From)\{(?:end|start): (\d+)\}", txt)})
+            got["%s%s" % (gname, "/%d" % ln if ln else "")] = (sorted(common.struct_variants(x, "GeneralSubtree::") | common.struct_variants(x, "CidrSubnet::")), splits, pushed is True)
+    want = {"RFC822Name": (["Rfc822Name"], [], True), "DNSName": (["DnsName"], [], True), "DirectoryName": (["DirectoryName"], [], True), "URI": None, "OtherName": None,
+            "IPAddress/8": (["IpAddress", "V4"], [4], True), "IPAddress/32": (["IpAddress", "V6"], [16], True), "IPAddress/5": None}
+    rep.ob("C17.tables", "%s|%s" % (cfg, fn), got == want, "GeneralName -> GeneralSubtree conversion inverts the writer's table; subnets are split addr||mask at 4 / 16 exactly when the octet string has 8 / 32 octets; other forms are skipped", expected=want, found=got)
     # is_ca: decision table over {extension present, cA, pathLen present, pathLen <= 255}
     fn = P + "convert_x509_is_ca"
     rep.fn(fn)
